@@ -7,6 +7,7 @@ import (
 	"fmt"
 	"io"
 	"log/slog"
+	"reflect"
 	"regexp"
 	"strconv"
 	"strings"
@@ -339,8 +340,71 @@ func sliceToSNBT(s []any, b *strings.Builder) error {
 }
 
 // BinaryTagToJSON converts a binary tag to JSON.
+//
+// A compound tag is converted by walking the decoded tag tree, so that string
+// values are taken over verbatim. (Going through the SNBT text form and a YAML
+// parser re-typed strings that look like scalars, folded newlines, turned empty
+// strings into "<nil>" and failed on strings mixing both quote characters.)
 func BinaryTagToJSON(tag *nbt.RawMessage) (json.RawMessage, error) {
-	return SnbtToJSON(tag.String())
+	if tag.Type != nbt.TagCompound {
+		return SnbtToJSON(tag.String())
+	}
+	var v any
+	if err := tag.Unmarshal(&v); err != nil {
+		return nil, fmt.Errorf("error decoding binary tag: %w", err)
+	}
+	m, ok := tagValueToJSON(v).(map[string]any)
+	if !ok {
+		return SnbtToJSON(tag.String())
+	}
+	normalizeComponentStyleBooleans(m)
+	j, err := json.Marshal(m)
+	if err != nil {
+		return nil, fmt.Errorf("error marshalling binary tag to json: %w", err)
+	}
+	return j, nil
+}
+
+// tagValueToJSON converts a decoded NBT value into a value encoding/json can marshal.
+func tagValueToJSON(v any) any {
+	switch v := v.(type) {
+	case map[string]any:
+		m := make(map[string]any, len(v))
+		for k, child := range v {
+			m[decodeCESU8(k)] = tagValueToJSON(child)
+		}
+		return m
+	case []any:
+		a := make([]any, len(v))
+		for i, child := range v {
+			a[i] = tagValueToJSON(child)
+		}
+		return a
+	case string:
+		return decodeCESU8(v)
+	case int8:
+		return int64(v)
+	case int16:
+		return int64(v)
+	case int32:
+		return int64(v)
+	case []byte: // byte array, not base64
+		a := make([]any, len(v))
+		for i, b := range v {
+			a[i] = int64(int8(b))
+		}
+		return a
+	default:
+		rv := reflect.ValueOf(v)
+		if rv.IsValid() && rv.Kind() == reflect.Slice {
+			a := make([]any, rv.Len())
+			for i := range a {
+				a[i] = tagValueToJSON(rv.Index(i).Interface())
+			}
+			return a
+		}
+		return v
+	}
 }
 
 // SnbtToBinaryTag converts a stringified NBT to binary tag.
